@@ -45,7 +45,8 @@ DESC = {
  'C19B': ('FileGlobberDependent waits for the first dependency IP only', 'dependency process with several, slow items'),
  'C20A': ('audit logs written after the outputs are finalized', 'workflow killed between finalization and audit writing, then resumed'),
  'C20B': ('no command recorded for Go-function tasks + reports omit command-less records (two cooperating edits)', 'Go-function step in the lineage'),
- 'C02A': ('', ''), 'C02B': ('', ''),
+ 'C02A': ('slots are claimed before the skip check and the skip path gives back one slot instead of CoresPerTask', 'process with CoresPerTask > 1 and enough of its outputs already on disk'),
+ 'C02B': ('InPort.CloseConnection got a value receiver: the closeLock is copied on every call and excludes nobody', 're-run of a completed workflow: every task is skipped and all processes feeding one in-port (the sink) close at the same instant'),
 }
 
 def detect(patch, check):
